@@ -138,6 +138,11 @@ pub struct SinkCtx {
     sched_default: u32,
     fail_at: Option<u64>,
     code: i32,
+    /// what the failing call leaves in `*bytes_written`: 0 nothing (as initialised by the caller), 1 half of
+    /// the buffer, 2 all but one byte, 3 one byte, 4 the whole length (a `write(2)`-like short count before the error)
+    fail_partial: u8,
+    /// the failure happens once (later calls are served again)
+    fail_once: bool,
     eintr_at: Vec<u64>,
     flush_fail: Vec<u64>,
     flush_code: i32,
@@ -160,6 +165,8 @@ impl SinkCtx {
             sched_default: v["schedDefault"].as_u64().unwrap_or(0) as u32,
             fail_at: v["failAt"].as_u64(),
             code: v["code"].as_i64().unwrap_or(5) as i32,
+            fail_partial: v["failPartial"].as_u64().unwrap_or(0) as u8,
+            fail_once: v["failOnce"].as_bool().unwrap_or(false),
             eintr_at: list("eintrAt"),
             flush_fail: list("flushFail"),
             flush_code: v["flushCode"].as_i64().unwrap_or(5) as i32,
@@ -210,6 +217,9 @@ pub extern "C" fn write_cb(buf: *const u8, len: u32, ctx: *mut c_void, out: *mut
                 return 0;
             }
             let code = c.code;
+            let n = match c.fail_partial { 1 => len / 2, 2 => len.saturating_sub(1), 3 => len.min(1), 4 => len, _ => u32::MAX };
+            if n != u32::MAX { unsafe { *out = n }; }
+            if c.fail_once { c.fail_at = None; }
             return fail(c, code);
         }
     }
